@@ -41,12 +41,14 @@ VARIANTS = {
     'aqua_imu': [{}, {'alpha': 0.1, 'beta': 0.1}, {'alpha': 0.3, 'beta': 0.3}, {'alpha': 0.1, 'beta': 0.1, 'adaptive': True}],
     'aqua_marg': [{}, {'alpha': 0.1, 'beta': 0.1}, {'alpha': 0.3, 'beta': 0.3}, {'alpha': 0.1, 'beta': 0.1, 'adaptive': True}],
     'roleq': [{'frame': 'NED'}, {'frame': 'ENU'}, {'frame': 'NED', 'weights': [0.5, 0.5]}, {'frame': 'ENU', 'magnetic_ref': 'vector'},
-              {'frame': 'NED', 'weights': [1.0, 0.0]}, {'frame': 'ENU', 'weights': [2.0, 0.0]}],      # accelerometer-only: judged on tilt
+              {'frame': 'NED', 'weights': [1.0, 0.0]}, {'frame': 'ENU', 'weights': [2.0, 0.0]},       # accelerometer-only: judged on tilt
+              {'frame': 'NED', 'magnetic_ref': 'default'}, {'frame': 'ENU', 'magnetic_ref': 'default'}],    # the class's own reference (WMM, Munich)
     'complementary_imu': [{}, {'gain': 0.5}, {'gain': 0.98}],
     'complementary_marg': [{}, {'gain': 0.5}, {'gain': 0.98}],
     'fkf': [{}],
 }
 # filters whose configuration contains arrays: the companion is built from the same array objects
+HEADING_MODE = {'madgwick_marg', 'mahony_marg', 'ekf_marg', 'aqua_marg', 'roleq', 'complementary_marg'}
 ATTR_ROUTE = {'madgwick_imu': ('gain',), 'madgwick_marg': ('gain',), 'mahony_imu': ('k_P', 'k_I'), 'mahony_marg': ('k_P', 'k_I'),
               'aqua_imu': ('alpha', 'beta'), 'aqua_marg': ('alpha', 'beta')}
 SHARED_OBJECT = {'madgwick_imu', 'madgwick_marg', 'aqua_imu', 'aqua_marg'}     # no carried state besides the caller's quaternion
@@ -83,12 +85,28 @@ def load_table():
         return None
 
 
+_MUNICH = {}
+
+
+def munich_dip():
+    """Inclination of the field the filter classes use when no magnetic reference is given (WMM at Munich on the frozen
+    simulated day), asked from the model directly."""
+    if 'dip' not in _MUNICH:
+        from ahrs.utils.wmm import WMM
+        from ahrs.common.constants import MUNICH_LATITUDE, MUNICH_LONGITUDE, MUNICH_HEIGHT
+        boot.set_today(boot.BOOT_ORDINAL)
+        _MUNICH['dip'] = float(WMM(latitude=MUNICH_LATITUDE, longitude=MUNICH_LONGITUDE, height=MUNICH_HEIGHT).I)
+    return _MUNICH['dip']
+
+
 def error_history(scn, n, with_twin=False):
     """Run the real filter on the motionless history; returns (err[n], e_init, status)."""
     kind = C.KINDS[scn['kind']]
     p = dict(scn['params'])
     dt = scn['dt']
     dip = scn['dip']
+    if p.get('magnetic_ref') == 'default':
+        dip = munich_dip()          # the world has to be the one the class's default reference describes
     a_ref, m_ref = kind.refs(p, dip)
     key = W.chan_key(a_ref, m_ref)
     spec = {'dt': dt, 'q0': scn['q_true'], 'segments': [{'t': 'rest', 'len': n - 1}], 'g': scn['g'], 'mscale': scn['mscale'],
@@ -98,9 +116,15 @@ def error_history(scn, n, with_twin=False):
     qt = hist.truth[0]
     target = qm.qconj(qt) if kind.conj else qt
     e0 = math.radians(scn['e0_deg'])
-    q_init = qm.qnorm(qm.qmul(target, qm.axang(scn['axis'], e0))) if e0 > 0 else target.copy()
     a_meas = hist.acc[key][0]
     a_vec = np.array(a_ref, dtype=float)
+    axis = scn['axis']
+    if scn.get('axis_mode') in ('heading+', 'heading-') and not kind.tilt_only:
+        # a pure heading error (the property quantifies over tilt *and* heading errors): the initial attitude is the
+        # truth turned about the vertical, to one side or the other
+        up = (a_vec / np.linalg.norm(a_vec)) if kind.conj else (a_meas / np.linalg.norm(a_meas))
+        axis = [float(x) for x in (up if scn['axis_mode'] == 'heading+' else -up)]
+    q_init = qm.qnorm(qm.qmul(target, qm.axang(axis, e0))) if e0 > 0 else target.copy()
 
     w_ = scn['params'].get('weights')
     tilt_only = kind.tilt_only or (w_ is not None and float(w_[1]) == 0.0)      # magnetometer weighted out: heading unobservable
@@ -158,6 +182,9 @@ def error_history(scn, n, with_twin=False):
         shared = C.make_config({k: pp[k] for k in C.CONFIG_ARRAYS if k != 'q0' and pp.get(k) is not None})
         pp.update(shared)
     try:
+        if scn.get('other_frame_first') and p.get('magnetic_ref') == 'default':
+            # another object of the class, default reference too but in the other local frame, is created first
+            kind.make(dict(pp, frame='ENU' if pp.get('frame', 'NED') == 'NED' else 'NED'), dt, dip)
         by_attr = {k_: pp[k_] for k_ in ATTR_ROUTE.get(kind.name, ()) if scn.get('attr_route') and k_ in pp}
         inst = kind.make({k_: v_ for k_, v_ in pp.items() if k_ not in by_attr}, dt, dip)
         for k_, v_ in by_attr.items():
@@ -282,6 +309,11 @@ class Check:
             out['attr_route'] = True
         if x_ < 0.3 and kind.startswith('complementary'):
             out['int_gyro'] = True
+        if params.get('magnetic_ref') == 'default' and rnd.random() < 0.6:
+            out['other_frame_first'] = True
+        y_ = rnd.random()
+        if y_ < 0.3 and kind in HEADING_MODE:
+            out['axis_mode'] = 'heading+' if y_ < 0.15 else 'heading-'
         return out
 
     def gen(self, seed, tier):
